@@ -588,7 +588,7 @@ func derives(v ssa.Value, pred func(ssa.Value) bool) bool {
 		ctx ssa.CallInstruction
 	}
 	seen := map[key]bool{}
-	hops := 0 // interprocedural steps taken (helper results, helper parameters, captured variables)
+	hops := 0                       // interprocedural steps taken (helper results, helper parameters, captured variables)
 	var stack []ssa.CallInstruction // calls entered on the way (results of helpers): their parameters map back to these calls only
 	var walk func(v ssa.Value) bool
 	walk = func(v ssa.Value) bool {
